@@ -1684,6 +1684,11 @@ class InterInventoryTree(InterTree):
             source_path = path_equivs[target_path]
             if source_path is not None:
                 source_entry = from_data.get(source_path)
+                if source_entry is None:
+                    # The source side of this entry lies outside the paths
+                    # the source walk was restricted to: look it up rather
+                    # than reporting the entry as newly added.
+                    source_entry = self._get_entry(self.source, source_path)
             else:
                 source_entry = None
             result, changes = self._changes_from_entries(
@@ -2000,9 +2005,12 @@ class InterCHKRevisionTree(InterInventoryTree):
                 ):
                     continue
                 if entry.file_id not in changed_file_ids:
+                    # The entry itself is unchanged, but a renamed ancestor
+                    # gives it a different path in the source tree.
+                    source_relpath = self.source.id2path(entry.file_id)
                     yield InventoryTreeChange(
                         entry.file_id,
-                        (relpath, relpath),  # Not renamed
+                        (source_relpath, relpath),
                         False,  # Not modified
                         (True, True),  # Still  versioned
                         (entry.parent_id, entry.parent_id),
